@@ -298,6 +298,8 @@ def gen_ostream_case(rnd, bufsz, drv, big):
     if big:
         maxin = rnd.choice([0, 0, 1000, 70000, 262144])
         maxout = rnd.choice([0, 0, 1000, 65536, 262143])
+        if greedy:
+            blk = 255      # the model's backlog is a list: cost ~ blocks x backlog; keep a big greedy case within seconds
     line = "O %s %d %d %d %d %d %s" % (drv, blk, maxin, maxout, greedy, finrun, ";".join(chunks) or "-")
     plain = b"".join(spec_bytes(c) for c in chunks)
     return line, dict(plain=plain)
